@@ -1,3 +1,424 @@
 import GnpyModel
-/- Property theorems for C10 (only the property theorems and their non-vacuity examples live here;
-   helper lemmas go to GnpyProofs/Lemmas). -/
+import GnpyProofs.Lemmas.Select
+/- Property theorems for C10 — auto-selected amplifiers are allowed (own variety list, else adjacent ROADM
+   restriction, else allowed_for_design; band cover; Raman only where allowed), capable whenever a permitted
+   model is capable, and the quietest capable choice.  Model: GnpyModel/Select.lean.  Statements over ℝ. -/
+namespace Gnpy.Select
+open Gnpy.Edfa
+
+/-! ### precedence of the restriction sources -/
+
+/-- the amplifier's own (non-empty) variety list wins -/
+theorem restriction_own_list_first (c : NodeCtx) (x : String) (xs : List String)
+    (h : c.varietyList = some (x :: xs)) : restrictionList c = x :: xs := by
+  simp [restrictionList, h]
+
+/-- else the booster restriction of the ROADM the amplifier follows -/
+theorem restriction_booster_second (c : NodeCtx) (x : String) (xs : List String)
+    (h0 : c.varietyList = none ∨ c.varietyList = some [])
+    (h : c.prevRoadmBooster = some (x :: xs)) : restrictionList c = x :: xs := by
+  rcases h0 with h0 | h0 <;> simp [restrictionList, h0, h]
+
+/-- else the preamp restriction of the ROADM the amplifier precedes -/
+theorem restriction_preamp_third (c : NodeCtx) (x : String) (xs : List String)
+    (h0 : c.varietyList = none ∨ c.varietyList = some [])
+    (h1 : c.prevRoadmBooster = none ∨ c.prevRoadmBooster = some [])
+    (h : c.nextRoadmPreamp = some (x :: xs)) : restrictionList c = x :: xs := by
+  rcases h0 with h0 | h0 <;> rcases h1 with h1 | h1 <;> simp [restrictionList, h0, h1, h]
+
+/-- else there is no restriction list (and `allowed_for_design` decides) -/
+theorem restriction_none (c : NodeCtx)
+    (h0 : c.varietyList = none ∨ c.varietyList = some [])
+    (h1 : c.prevRoadmBooster = none ∨ c.prevRoadmBooster = some [])
+    (h2 : c.nextRoadmPreamp = none ∨ c.nextRoadmPreamp = some []) : restrictionList c = [] := by
+  rcases h0 with h0 | h0 <;> rcases h1 with h1 | h1 <;> rcases h2 with h2 | h2 <;>
+    simp [restrictionList, h0, h1, h2]
+
+/-- a type_variety given by the user is the only permitted model -/
+theorem user_variety_wins (lib : List (AmpSpec ℝ)) (c : NodeCtx) (b : Band) (h : c.typeVariety ≠ "") :
+    nodeRestrictions lib c b = [c.typeVariety] := by
+  simp [nodeRestrictions, h]
+
+/-- **the permitted set is sound**: every permitted name is a single-band library model that covers the design
+band and is in the restriction list in force (or, without one, allowed for design) -/
+theorem nodeRestrictions_permitted (lib : List (AmpSpec ℝ)) (c : NodeCtx) (b : Band) (n : String)
+    (h0 : c.typeVariety = "") (h : n ∈ nodeRestrictions lib c b) :
+    ∃ a ∈ lib, a.name = n ∧ a.isMulti = false ∧ a.fMin ≤ b.fMin ∧ b.fMax ≤ a.fMax ∧
+      (n ∈ restrictionList c ∨ (restrictionList c = [] ∧ a.allowedForDesign = true)) := by
+  simp only [nodeRestrictions, h0, ne_eq, not_true_eq_false, if_false, List.mem_map, List.mem_filter] at h
+  obtain ⟨a, ⟨ha, hc⟩, rfl⟩ := h
+  simp only [Bool.and_eq_true, Bool.not_eq_true', AmpSpec.covers, decide_eq_true_eq, allowedBy, Bool.or_eq_true,
+    List.contains_iff_mem, List.isEmpty_iff] at hc
+  exact ⟨a, ha, rfl, hc.1.1, hc.1.2.1, hc.1.2.2, hc.2⟩
+
+/-- … and complete: nothing that qualifies is left out -/
+theorem nodeRestrictions_complete (lib : List (AmpSpec ℝ)) (c : NodeCtx) (b : Band) (a : AmpSpec ℝ)
+    (h0 : c.typeVariety = "") (ha : a ∈ lib) (hm : a.isMulti = false) (h1 : a.fMin ≤ b.fMin) (h2 : b.fMax ≤ a.fMax)
+    (h3 : a.name ∈ restrictionList c ∨ (restrictionList c = [] ∧ a.allowedForDesign = true)) :
+    a.name ∈ nodeRestrictions lib c b := by
+  simp only [nodeRestrictions, h0, ne_eq, not_true_eq_false, if_false, List.mem_map, List.mem_filter]
+  refine ⟨a, ⟨ha, ?_⟩, rfl⟩
+  simp only [Bool.and_eq_true, Bool.not_eq_true', AmpSpec.covers, decide_eq_true_eq, allowedBy, Bool.or_eq_true,
+    List.contains_iff_mem, List.isEmpty_iff]
+  exact ⟨⟨hm, h1, h2⟩, h3⟩
+
+/-- Raman is allowed exactly after a fibre all of whose loss coefficients are below the configured limit -/
+theorem ramanAllowed_spec (isFiber : Bool) (loss : List ℝ) (limit : ℝ) :
+    ramanAllowed isFiber loss limit = true ↔ isFiber = true ∧ ∀ l ∈ loss, l < limit * (1 / 1000) := by
+  simp [ramanAllowed]
+
+/-! ### the selection -/
+
+private theorem cand_mem (lib : List (AmpSpec ℝ)) (ok : Bool) (g p e : ℝ) (y : Cand ℝ)
+    (h : y ∈ edfaList lib g p e ++ ramanList lib ok g p e) :
+    ∃ a ∈ lib, y = cand a g p e ∧ (a.raman = false ∨ ok = true) := by
+  rcases List.mem_append.1 h with h | h
+  · simp only [edfaList, List.mem_map, List.mem_filter, Bool.not_eq_true'] at h
+    obtain ⟨a, ⟨ha, hr⟩, rfl⟩ := h
+    exact ⟨a, ha, rfl, Or.inl hr⟩
+  · simp only [ramanList] at h
+    split at h
+    · rename_i hok
+      simp only [List.mem_map, List.mem_filter] at h
+      obtain ⟨a, ⟨ha, _⟩, rfl⟩ := h
+      exact ⟨a, ha, rfl, Or.inr hok⟩
+    · simp at h
+
+private theorem mem_cand (lib : List (AmpSpec ℝ)) (ok : Bool) (g p e : ℝ) (a : AmpSpec ℝ) (ha : a ∈ lib)
+    (hr : a.raman = false ∨ ok = true) : cand a g p e ∈ edfaList lib g p e ++ ramanList lib ok g p e := by
+  by_cases hra : a.raman = true
+  · have hok : ok = true := by
+      rcases hr with h | h
+      · rw [h] at hra; cases hra
+      · exact h
+    apply List.mem_append_right
+    simp only [ramanList, hok, if_true, List.mem_map, List.mem_filter]
+    exact ⟨a, ⟨ha, hra⟩, rfl⟩
+  · apply List.mem_append_left
+    simp only [edfaList, List.mem_map, List.mem_filter, Bool.not_eq_true']
+    exact ⟨a, ⟨ha, by simpa using hra⟩, rfl⟩
+
+/-- unfolding `selectEdfa` -/
+private theorem select_unfold (lib : List (AmpSpec ℝ)) (ok : Bool) (g p e : ℝ) (ch : Choice ℝ)
+    (h : selectEdfa lib ok g p e = some ch) :
+    ∃ l c, acceptable (edfaList lib g p e) (ramanList lib ok g p e) = some l ∧ argminNf l = some c ∧
+      ch = { variety := c.variety, powerReduction := smin c.power Edfa.zero, nf := c.nf, power := c.power,
+             gainMin := c.gainMin } := by
+  simp only [selectEdfa] at h
+  split at h
+  · cases h
+  · rename_i l hl
+    split at h
+    · cases h
+    · rename_i c hc
+      simp only [Option.some.injEq] at h
+      exact ⟨l, c, hl, hc, h.symm⟩
+
+/-- **the chosen model is one of the models offered** (the permitted set) and is Raman only if Raman is allowed -/
+theorem selected_mem_permitted (lib : List (AmpSpec ℝ)) (ok : Bool) (g p e : ℝ) (ch : Choice ℝ)
+    (h : selectEdfa lib ok g p e = some ch) :
+    ∃ a ∈ lib, a.name = ch.variety ∧ (a.raman = false ∨ ok = true) ∧ ch.power = powerAttr a g p e ∧
+      ch.gainMin = gainMinAttr a g ∧ ch.nf = edfaNf a g := by
+  obtain ⟨l, c, hl, hc, rfl⟩ := select_unfold lib ok g p e ch h
+  have hmem := (acceptable_sub _ _ _ hl).1 c (argminNf_spec l c hc).1
+  obtain ⟨a, ha, rfl, hr⟩ := cand_mem lib ok g p e c hmem
+  exact ⟨a, ha, rfl, hr, rfl, rfl, rfl⟩
+
+/-- **Raman models are used only where allowed** -/
+theorem raman_only_if_allowed (lib : List (AmpSpec ℝ)) (g p e : ℝ) (ch : Choice ℝ)
+    (h : selectEdfa lib false g p e = some ch) : ∃ a ∈ lib, a.name = ch.variety ∧ a.raman = false := by
+  obtain ⟨a, ha, hn, hr, _⟩ := selected_mem_permitted lib false g p e ch h
+  rcases hr with hr | hr
+  · exact ⟨a, ha, hn, hr⟩
+  · cases hr
+
+/-- with the library `set_one_amplifier` builds from the permitted names, the chosen model is a permitted,
+single-band library model … -/
+theorem selected_in_restrictions (lib : List (AmpSpec ℝ)) (r : List String) (ok : Bool) (g p e : ℝ) (ch : Choice ℝ)
+    (hr : r ≠ []) (h : selectEdfa (selectionLibrary lib r) ok g p e = some ch) :
+    ch.variety ∈ r ∧ ∃ a ∈ lib, a.name = ch.variety ∧ a.isMulti = false := by
+  obtain ⟨a, ha, hn, _⟩ := selected_mem_permitted _ ok g p e ch h
+  have hre : r.isEmpty = false := by simpa [List.isEmpty_iff] using hr
+  simp only [selectionLibrary, hre, Bool.false_eq_true, if_false, List.mem_filter, Bool.not_eq_true',
+    List.contains_iff_mem] at ha
+  exact ⟨hn ▸ ha.2, a, ha.1.1, hn, ha.1.2⟩
+
+/-- … which **covers the design band** when the permitted names come from `get_node_restrictions` -/
+theorem selected_covers_band (lib : List (AmpSpec ℝ)) (c : NodeCtx) (b : Band) (ok : Bool) (g p e : ℝ)
+    (ch : Choice ℝ) (h0 : c.typeVariety = "") (hne : nodeRestrictions lib c b ≠ [])
+    (h : selectEdfa (selectionLibrary lib (nodeRestrictions lib c b)) ok g p e = some ch) :
+    ∃ a ∈ lib, a.name = ch.variety ∧ a.isMulti = false ∧ a.fMin ≤ b.fMin ∧ b.fMax ≤ a.fMax ∧
+      (ch.variety ∈ restrictionList c ∨ (restrictionList c = [] ∧ a.allowedForDesign = true)) := by
+  obtain ⟨hin, _⟩ := selected_in_restrictions lib _ ok g p e ch hne h
+  exact nodeRestrictions_permitted lib c b ch.variety h0 hin
+
+/-- **capable if anybody is**: if some offered model (Raman only where allowed) can deliver the gain
+(`gain_min` attribute > 0) and the power (`power` attribute > 0, extended-gain allowance included) then so can
+the chosen one -/
+theorem capable_if_any_capable (lib : List (AmpSpec ℝ)) (ok : Bool) (g p e : ℝ) (ch : Choice ℝ)
+    (hcap : ∃ a ∈ lib, (a.raman = false ∨ ok = true) ∧ 0 < gainMinAttr a g ∧ 0 < powerAttr a g p e)
+    (h : selectEdfa lib ok g p e = some ch) : 0 < ch.gainMin ∧ 0 < ch.power := by
+  obtain ⟨l, c, hl, hc, rfl⟩ := select_unfold lib ok g p e ch h
+  obtain ⟨a, ha, hr, hg, hp⟩ := hcap
+  have hex : ∃ x ∈ edfaList lib g p e ++ ramanList lib ok g p e, 0 < x.gainMin ∧ 0 < x.power :=
+    ⟨cand a g p e, mem_cand lib ok g p e a ha hr, hg, hp⟩
+  rw [acceptable_capable _ _ hex] at hl
+  simp only [Option.some.injEq] at hl
+  subst hl
+  have := (List.mem_filter.1 (argminNf_spec _ c hc).1).2
+  simp only [Bool.and_eq_true, decide_eq_true_eq] at this
+  exact this
+
+/-- **quietest**: no acceptable candidate has a lower NF than the chosen one -/
+theorem nf_minimal_among_acceptable (lib : List (AmpSpec ℝ)) (ok : Bool) (g p e : ℝ) (ch : Choice ℝ)
+    (l : List (Cand ℝ)) (hl : acceptable (edfaList lib g p e) (ramanList lib ok g p e) = some l)
+    (h : selectEdfa lib ok g p e = some ch) : ∀ x ∈ l, nfLt x.nf ch.nf = false := by
+  obtain ⟨l', c, hl', hc, rfl⟩ := select_unfold lib ok g p e ch h
+  rw [hl] at hl'; simp only [Option.some.injEq] at hl'; subst hl'
+  exact (argminNf_spec l c hc).2
+
+/-- **no permitted capable model has a lower noise figure at that gain** -/
+theorem nf_minimal_among_capable (lib : List (AmpSpec ℝ)) (ok : Bool) (g p e : ℝ) (ch : Choice ℝ)
+    (h : selectEdfa lib ok g p e = some ch) (a : AmpSpec ℝ) (ha : a ∈ lib) (hr : a.raman = false ∨ ok = true)
+    (hg : 0 < gainMinAttr a g) (hp : 0 < powerAttr a g p e) : nfLt (edfaNf a g) ch.nf = false := by
+  have hex : ∃ x ∈ edfaList lib g p e ++ ramanList lib ok g p e, 0 < x.gainMin ∧ 0 < x.power :=
+    ⟨cand a g p e, mem_cand lib ok g p e a ha hr, hg, hp⟩
+  have hl := acceptable_capable _ _ hex
+  have := nf_minimal_among_acceptable lib ok g p e ch _ hl h (cand a g p e)
+    (List.mem_filter.2 ⟨mem_cand lib ok g p e a ha hr, by simp [cand, hg, hp]⟩)
+  exact this
+
+/-- **fall-back**: when nobody among the gain-acceptable candidates can deliver the power, the chosen one is
+within 0.3 dB of the best available power, and NF-minimal among those -/
+theorem fallback_spec (l : List (Cand ℝ)) (c : Cand ℝ) (hne : l ≠ []) (hno : ∀ x ∈ l, ¬ 0 < x.power)
+    (hc : argminNf (powerStage l) = some c) :
+    c ∈ l ∧ maxPower l - 3 / 10 < c.power ∧ (∀ x ∈ l, x.power ≤ maxPower l) ∧
+    ∀ x ∈ l, maxPower l - 3 / 10 < x.power → nfLt x.nf c.nf = false := by
+  obtain ⟨key, _⟩ := powerStage_fallback l hne hno
+  obtain ⟨hm, hmin⟩ := argminNf_spec _ c hc
+  have := (key c).1 hm
+  exact ⟨this.1, this.2, (maxPower_spec l hne).1, fun x hx hp => hmin x ((key x).2 ⟨hx, hp⟩)⟩
+
+/-- the power reduction is `min(power attribute of the chosen model, 0)` -/
+theorem reduction_spec (lib : List (AmpSpec ℝ)) (ok : Bool) (g p e : ℝ) (ch : Choice ℝ)
+    (h : selectEdfa lib ok g p e = some ch) : ch.powerReduction = min ch.power 0 ∧ ch.powerReduction ≤ 0 := by
+  obtain ⟨l, c, _, _, rfl⟩ := select_unfold lib ok g p e ch h
+  simp only [smin_eq_min, Edfa.zero, Nat.cast_zero]
+  exact ⟨trivial, min_le_right _ _⟩
+
+/-- no reduction when somebody is capable -/
+theorem reduction_zero_if_capable (lib : List (AmpSpec ℝ)) (ok : Bool) (g p e : ℝ) (ch : Choice ℝ)
+    (hcap : ∃ a ∈ lib, (a.raman = false ∨ ok = true) ∧ 0 < gainMinAttr a g ∧ 0 < powerAttr a g p e)
+    (h : selectEdfa lib ok g p e = some ch) : ch.powerReduction = 0 := by
+  have hp := (capable_if_any_capable lib ok g p e ch hcap h).2
+  rw [(reduction_spec lib ok g p e ch h).1]
+  exact min_eq_right (le_of_lt hp)
+
+/-- the selection is refused (ConfigurationError) exactly when there is no non-Raman model to fall back on and
+no (allowed) Raman model reaches its minimum gain -/
+theorem select_none_iff (lib : List (AmpSpec ℝ)) (ok : Bool) (g p e : ℝ) :
+    selectEdfa lib ok g p e = none ↔
+      edfaList lib g p e = [] ∧ ∀ x ∈ ramanList lib ok g p e, ¬ 0 < x.gainMin := by
+  rw [← acceptable_none_iff]
+  simp only [selectEdfa]
+  constructor
+  · intro h
+    split at h
+    · assumption
+    · rename_i l hl
+      obtain ⟨c, hc⟩ := argminNf_some l (acceptable_sub _ _ _ hl).2
+      rw [hc] at h; cases h
+  · intro h; rw [h]
+
+/-- Python's `min(key=…)`: the result is an element and no element is smaller -/
+theorem argminNf_first (l : List (Cand ℝ)) (c : Cand ℝ) (h : argminNf l = some c) :
+    c ∈ l ∧ ∀ x ∈ l, nfLt x.nf c.nf = false := argminNf_spec l c h
+
+/-! ### gain fall-back, multiband permitted set, and the statement in one piece -/
+
+/-- when no candidate reaches its minimum gain (3 dB allowance for EDFAs, none for Raman) the non-Raman models
+are used with input padding — a Raman model is never chosen below its minimum gain -/
+theorem gain_fallback_spec (e r : List (Cand ℝ)) (hno : ∀ x ∈ e ++ r, ¬ 0 < x.gainMin) (hne : e ≠ []) :
+    acceptable e r = some (powerStage e) := by
+  have h1 : ((e ++ r).filter (fun x => decide (Edfa.zero < x.gainMin))).isEmpty = true := by
+    rw [List.isEmpty_iff, List.filter_eq_nil_iff]
+    intro x hx; simpa [Edfa.zero] using hno x hx
+  have h2 : e.isEmpty = false := by simpa [List.isEmpty_iff] using hne
+  simp only [acceptable, h1, h2, if_true, Bool.false_eq_true, if_false]
+
+theorem mem_selectionLibrary (lib : List (AmpSpec ℝ)) (r : List String) (a : AmpSpec ℝ) :
+    a ∈ selectionLibrary lib r ↔ a ∈ lib ∧ a.isMulti = false ∧ (r = [] ∨ a.name ∈ r) := by
+  simp only [selectionLibrary]
+  by_cases hr : r = []
+  · subst hr; simp
+  · have : r.isEmpty = false := by simpa [List.isEmpty_iff] using hr
+    simp only [this, hr, Bool.false_eq_true, if_false, List.mem_filter, Bool.not_eq_true', List.contains_iff_mem,
+      false_or]
+    tauto
+
+/-- the permitted multiband entries: multiband, in the restriction list in force (or allowed for design when
+there is none), and every member covers one of the design bands -/
+theorem nodeRestrictionsMulti_permitted (lib : List (AmpSpec ℝ)) (c : NodeCtx) (bands : List Band) (n : String)
+    (h0 : c.typeVariety = "") (h : n ∈ nodeRestrictionsMulti lib c bands) :
+    ∃ m ∈ lib, m.name = n ∧ m.isMulti = true ∧
+      (n ∈ restrictionList c ∨ (restrictionList c = [] ∧ m.allowedForDesign = true)) ∧
+      ∀ t ∈ m.multiBand.getD [], ∃ a b, lookup lib t = some a ∧ b ∈ bands ∧ a.covers b = true := by
+  simp only [nodeRestrictionsMulti, h0, ne_eq, not_true_eq_false, if_false, List.mem_map, List.mem_filter] at h
+  obtain ⟨m, ⟨⟨hm, hc⟩, hall⟩, rfl⟩ := h
+  simp only [Bool.and_eq_true, allowedBy, Bool.or_eq_true, List.contains_iff_mem, List.isEmpty_iff] at hc
+  refine ⟨m, hm, rfl, hc.1, hc.2, ?_⟩
+  intro t ht
+  have := List.all_eq_true.1 hall t ht
+  simp only [List.contains_iff_mem, List.mem_flatMap, List.mem_filterMap] at this
+  obtain ⟨m', _, t', _, b, hb, hopt⟩ := this
+  cases hlk : lookup lib t' with
+  | none => simp [hlk] at hopt
+  | some a =>
+    simp only [hlk] at hopt
+    split at hopt
+    · rename_i hcov
+      simp only [Option.some.injEq] at hopt
+      subst hopt
+      exact ⟨a, b, hlk, hb, hcov⟩
+    · cases hopt
+
+/-- **C10 in one statement** (single-band `Edfa` node without user type): whatever auto-design chooses is a
+single-band library model that covers the design band, comes from the restriction source in force (own list,
+else ROADM booster, else ROADM preamp, else allowed_for_design), is Raman only if Raman is allowed, is capable
+whenever some permitted model is capable, and no permitted capable model is quieter at that gain. -/
+theorem auto_selection_main (lib : List (AmpSpec ℝ)) (c : NodeCtx) (b : Band) (ok : Bool) (g p e : ℝ)
+    (ch : Choice ℝ) (h0 : c.typeVariety = "") (hne : nodeRestrictions lib c b ≠ [])
+    (h : selectEdfa (selectionLibrary lib (nodeRestrictions lib c b)) ok g p e = some ch) :
+    (∃ a ∈ lib, a.name = ch.variety ∧ a.isMulti = false ∧ a.fMin ≤ b.fMin ∧ b.fMax ≤ a.fMax ∧
+      (ch.variety ∈ restrictionList c ∨ (restrictionList c = [] ∧ a.allowedForDesign = true))) ∧
+    (ok = false → ∃ a ∈ lib, a.name = ch.variety ∧ a.raman = false) ∧
+    (∀ a ∈ lib, a.isMulti = false → a.name ∈ nodeRestrictions lib c b → (a.raman = false ∨ ok = true) →
+      0 < gainMinAttr a g → 0 < powerAttr a g p e →
+      0 < ch.gainMin ∧ 0 < ch.power ∧ ch.powerReduction = 0 ∧ nfLt (edfaNf a g) ch.nf = false) := by
+  refine ⟨selected_covers_band lib c b ok g p e ch h0 hne h, ?_, ?_⟩
+  · intro hok
+    subst hok
+    obtain ⟨a, ha, hn, hr⟩ := raman_only_if_allowed _ g p e ch h
+    exact ⟨a, ((mem_selectionLibrary lib _ a).1 ha).1, hn, hr⟩
+  · intro a ha hm hin hr hg hp
+    have ha' : a ∈ selectionLibrary lib (nodeRestrictions lib c b) :=
+      (mem_selectionLibrary lib _ a).2 ⟨ha, hm, Or.inr hin⟩
+    have hcap : ∃ a ∈ selectionLibrary lib (nodeRestrictions lib c b),
+        (a.raman = false ∨ ok = true) ∧ 0 < gainMinAttr a g ∧ 0 < powerAttr a g p e := ⟨a, ha', hr, hg, hp⟩
+    obtain ⟨c1, c2⟩ := capable_if_any_capable _ ok g p e ch hcap h
+    exact ⟨c1, c2, reduction_zero_if_capable _ ok g p e ch hcap h,
+      nf_minimal_among_capable _ ok g p e ch h a ha' hr hg hp⟩
+
+/-! ### multiband preselection -/
+
+private theorem preselectLoop_sub (lib : List (AmpSpec ℝ)) (e : ℝ) (bts : List (BandTarget ℝ)) :
+    ∀ (sel out : List String), preselectLoop lib e sel bts = some out → ∀ m ∈ out, m ∈ sel := by
+  induction bts with
+  | nil => intro sel out h m hm; simp only [preselectLoop, Option.some.injEq] at h; subst h; exact hm
+  | cons bt rest ih =>
+    intro sel out h m hm
+    simp only [preselectLoop] at h
+    split at h
+    · cases h
+    · rename_i sel' hs
+      have h1 := ih sel' out h m hm
+      simp only [preselectStep] at hs
+      split at hs
+      · cases hs
+      · simp only [Option.some.injEq] at hs
+        subst hs
+        exact (List.mem_filter.1 h1).1
+
+/-- **multiband preselection stays inside the permitted set** (repaired behaviour, fix F10): every single-band
+model returned by `preselect_multiband_amps` is a member of one of the permitted multiband entries -/
+theorem preselect_sound (lib : List (AmpSpec ℝ)) (e : ℝ) (r : List String) (bts : List (BandTarget ℝ))
+    (out : List String) (h : preselect lib e r bts = some out) :
+    ∀ t ∈ out, ∃ m ∈ r, ∃ a, lookup lib m = some a ∧ t ∈ a.multiBand.getD [] := by
+  simp only [preselect, Option.map_eq_some_iff] at h
+  obtain ⟨sel, hsel, rfl⟩ := h
+  intro t ht
+  simp only [membersOf, List.mem_flatMap] at ht
+  obtain ⟨m, hm, hmem⟩ := ht
+  have hr := preselectLoop_sub lib e bts r sel hsel m hm
+  cases hlk : lookup lib m with
+  | none => simp [hlk] at hmem
+  | some a => exact ⟨m, hr, a, hlk, by simpa [hlk] using hmem⟩
+
+/-- every multiband entry that survives one band lists a model which the filter accepted for that band
+(`preselect_sound_partial`: the part of "eligible for all the bands" that is proved; the final per-band choice
+and `find_type_variety` are monitored on designed topologies, not modelled) -/
+theorem preselect_sound_partial (lib : List (AmpSpec ℝ)) (e : ℝ) (sel out : List String) (bt : BandTarget ℝ)
+    (h : preselectStep lib e sel bt = some out) :
+    ∀ m ∈ out, m ∈ sel ∧ ∃ l, acceptable (edfaList (bandEqpt lib sel bt.band) bt.gain bt.power e)
+        (ramanList (bandEqpt lib sel bt.band) true bt.gain bt.power e) = some l ∧
+      ∃ c ∈ l, ∃ a ∈ lib, a.name = m ∧ (a.multiBand.getD []).contains c.variety = true := by
+  simp only [preselectStep] at h
+  split at h
+  · cases h
+  · rename_i l hl
+    simp only [Option.some.injEq] at h
+    subst h
+    intro m hm
+    obtain ⟨h1, h2⟩ := List.mem_filter.1 hm
+    refine ⟨h1, l, hl, ?_⟩
+    simp only [List.contains_iff_mem, findTypeVarieties, List.mem_flatten, List.mem_map] at h2
+    obtain ⟨lst, ⟨t, ⟨c, hc, rfl⟩, rfl⟩, hm2⟩ := h2
+    simp only [List.mem_map, List.mem_filter] at hm2
+    obtain ⟨a, ⟨ha, hcont⟩, rfl⟩ := hm2
+    exact ⟨c, hc, a, ha, rfl, hcont⟩
+
+private theorem mem_dedup (l : List String) (x : String) : x ∈ dedup l ↔ x ∈ l := by
+  induction l with
+  | nil => simp [dedup]
+  | cons y ys ih =>
+    simp only [dedup, List.mem_cons, List.mem_filter, ih, bne_iff_ne, ne_eq]
+    constructor
+    · rintro (h | ⟨h, _⟩)
+      · exact Or.inl h
+      · exact Or.inr h
+    · rintro (h | h)
+      · exact Or.inl h
+      · by_cases hxy : x = y
+        · exact Or.inl hxy
+        · exact Or.inr ⟨h, hxy⟩
+
+private def wC1 : AmpSpec ℝ :=
+  { name := "c1", multiBand := none, raman := false, allowedForDesign := true, fMin := 0, fMax := 10,
+    gainFlatmax := 20, gainMin := 10, pMax := 20,
+    nf := .single { model := .fixedGain 5, gainMin := 10, gainFlatmax := 20 } }
+private def wM (n : String) (allowed : Bool) : AmpSpec ℝ :=
+  { wC1 with name := n, multiBand := some ["c1"], allowedForDesign := allowed }
+
+/-- **the code before fix F10 left the permitted set**: library `c1`, multiband `M1 = [c1]` (permitted) and
+`M2 = [c1]` (not permitted); after one band the selected multiband entries contain `M2`. -/
+theorem preselect_old_leaves_permitted_set :
+    ∃ out, preselectStepOld [wC1, wM "M1" true, wM "M2" false] 0 ["M1"] ⟨⟨1, 9⟩, 15, 10⟩ = some out ∧
+      "M2" ∈ out ∧ "M2" ∉ ["M1"] := by
+  have hb : bandEqpt [wC1, wM "M1" true, wM "M2" false] ["M1"] ⟨1, 9⟩ = [wC1] := by
+    simp [bandEqpt, membersOf, lookup, wM, wC1, dedup, AmpSpec.covers]
+  simp only [preselectStepOld, hb]
+  cases hacc : acceptable (edfaList [wC1] (15:ℝ) 10 0) (ramanList [wC1] true (15:ℝ) 10 0) with
+  | none =>
+    have := (acceptable_none_iff _ _).1 hacc
+    simp [edfaList, wC1] at this
+  | some l =>
+    refine ⟨_, rfl, ?_, by decide⟩
+    obtain ⟨hsub, hne⟩ := acceptable_sub _ _ _ hacc
+    obtain ⟨y, hy⟩ := List.exists_mem_of_ne_nil l hne
+    have hv : y.variety = "c1" := by
+      have := hsub y hy
+      simp [edfaList, ramanList, wC1, cand] at this
+      rw [this]
+    rw [mem_dedup]
+    simp only [findTypeVarieties, List.mem_flatten, List.mem_map]
+    refine ⟨_, ⟨"c1", ⟨y, hy, hv⟩, rfl⟩, ?_⟩
+    simp [wM, wC1]
+
+/-! ### non-vacuity -/
+example : restrictionList ⟨"", some [], some ["b"], some ["p"]⟩ = ["b"] := by decide
+example : nfLt (none : Option ℝ) (some 3) = true := rfl
+example : ramanAllowed true [(2:ℝ) / 10000] (25 / 100) = true := by
+  rw [ramanAllowed_spec]; constructor; · rfl
+  intro l hl; simp at hl; subst hl; norm_num
+
+end Gnpy.Select
